@@ -224,7 +224,7 @@ func prec(n *Node) int {
 		return 17
 	case KChain:
 		return 17
-	case KCall, KNew, KDot, KIndex, KSuperCall, KSuperDot, KEval:
+	case KCall, KNew, KDot, KIndex, KSuperCall, KSuperDot, KEval, KTagged:
 		return 18
 	}
 	return 19
@@ -430,6 +430,22 @@ func (p *printer) expr0(n *Node) string {
 		return "super" + p.args(n.L)
 	case KSuperDot:
 		return "super." + n.S
+	case KTagged:
+		var b strings.Builder
+		if n.A.K == KFunc || n.A.K == KClass {
+			b.WriteString("(" + p.expr0(n.A) + ")")
+		} else {
+			b.WriteString(p.expr(n.A, 18))
+		}
+		b.WriteByte('`')
+		for i, q := range n.Q {
+			b.WriteString(tmplEsc(q))
+			if i < len(n.L) {
+				b.WriteString("${" + p.expr(n.L[i], 1) + "}")
+			}
+		}
+		b.WriteByte('`')
+		return b.String()
 	case KEval:
 		src := p.evalSource(n)
 		if n.Has(FIndirect) {
